@@ -9,7 +9,7 @@
 From XcpModel Require Import Base Backup Paths Walker Main.
 From XcpProofs Require Import MainProofs.
 From XcpModel Require Import Extracted.
-From XcpProofs Require Import PinnedSource.
+From XcpProofs Require Import ExtractedOk PinnedSource.
 From XcpPins Require Import Pin_main_main Pin_main_expand_globs Pin_main_opts_check Pin_common_is_same_file.
 
 (* every class of invalid invocation is rejected by the validation block, for
@@ -72,6 +72,13 @@ Proof. exact pin_main_opts_check. Qed.
 Theorem C16_src_pin_common_is_same_file : pin_unchanged name_common_is_same_file.
 Proof. exact pin_common_is_same_file. Qed.
 
+(* ---- tie to the current source (translator): the validation block of main() — every `return Err` between the
+   expansion of the sources and the start of the driver, the per-source loop with its `targets` vector — translated
+   statement by statement, IS the model's `validate`, for all oracles, options, sources and destinations ---- *)
+Theorem C16_src_main_validation_block : forall exists_ is_dir same_file o sources dest,
+  x_validate exists_ is_dir same_file o sources dest = validate exists_ is_dir same_file o sources dest.
+Proof. exact x_validate_ok. Qed.
+
 Print Assumptions C16_invalid_rejected.
 Print Assumptions C16_validated_sound.
 Print Assumptions C16_force_noclobber_conflict.
@@ -81,3 +88,4 @@ Print Assumptions C16_src_pin_main_main.
 Print Assumptions C16_src_pin_main_expand_globs.
 Print Assumptions C16_src_pin_main_opts_check.
 Print Assumptions C16_src_pin_common_is_same_file.
+Print Assumptions C16_src_main_validation_block.
